@@ -397,14 +397,13 @@ int reb_simulation_remove_particle(struct reb_simulation* const r, int index, in
                 }
             }
 
-            // reshuffle current_Ks
-	    unsigned int counter = 0;
+            // reshuffle current_Ks: drop row and column index (in place, the old position is never in front of the new one)
 	    const int new_N = r->N-1;
-	    for (unsigned int i = 0; i < new_N; i++){
-		if (i == index) counter += r->N;
-	        for (unsigned int j = 0; j < new_N; j++){
-		   if (j == index) counter++;
-		ri_trace->current_Ks[i*new_N+j] = ri_trace->current_Ks[i*new_N+j+counter];
+	    for (int i = 0; i < new_N; i++){
+		const int i_old = (i >= index) ? i+1 : i;
+	        for (int j = 0; j < new_N; j++){
+		    const int j_old = (j >= index) ? j+1 : j;
+		    ri_trace->current_Ks[i*new_N+j] = ri_trace->current_Ks[i_old*(int)r->N+j_old];
                 }
             }
             if (encounter_index<ri_trace->encounter_N_active){
